@@ -343,7 +343,8 @@ done:
 	if !truncated {
 		for iter.Next() {
 			object := iter.Key().(string)
-			if matched := prefix.Match(object, &match); matched && !match.CommonPrefix {
+			// a common prefix that has not been reported yet is a remaining entry, too:
+			if matched := prefix.Match(object, &match); matched && (!match.CommonPrefix || !seenPrefixes[match.MatchedPart]) {
 				truncated = true
 
 				// This is not especially defensive; it assumes the rest of the code works
